@@ -61,12 +61,12 @@ AssignOp == [Assign |-> "=", AssignAdd |-> "+=", AssignSub |-> "-=", AssignMul |
 CReal == [sqrt |-> "sqrt", abs |-> "fabs", cos |-> "cos", sin |-> "sin", tan |-> "tan", acos |-> "acos",
           asin |-> "asin", atan |-> "atan", cosh |-> "cosh", sinh |-> "sinh", tanh |-> "tanh", acosh |-> "acosh",
           asinh |-> "asinh", atanh |-> "atanh", power |-> "pow", exp |-> "exp", ln |-> "log", erf |-> "erf",
-          atan_2 |-> "atan2", min_value |-> "fmin", max_value |-> "fmax", bessel_y |-> "yn", bessel_j |-> "jn",
+          atan_2 |-> "atan2", atan2 |-> "atan2", min_value |-> "fmin", max_value |-> "fmax", bessel_y |-> "yn", bessel_j |-> "jn",
           real |-> "", imag |-> "", conj |-> ""]
 CCplx == [sqrt |-> "csqrt", abs |-> "cabs", cos |-> "ccos", sin |-> "csin", tan |-> "ctan", acos |-> "cacos",
           asin |-> "casin", atan |-> "catan", cosh |-> "ccosh", sinh |-> "csinh", tanh |-> "ctanh",
           acosh |-> "cacosh", asinh |-> "casinh", atanh |-> "catanh", power |-> "cpow", exp |-> "cexp",
-          ln |-> "clog", erf |-> "", atan_2 |-> "", min_value |-> "", max_value |-> "", bessel_y |-> "",
+          ln |-> "clog", erf |-> "", atan_2 |-> "", atan2 |-> "", min_value |-> "", max_value |-> "", bessel_y |-> "",
           bessel_j |-> "", real |-> "creal", imag |-> "cimag", conj |-> "conj"]
 Suffixed(b) == IF b = "" THEN {} ELSE {b, b \o "f", b \o "l"}
 \* fam: "r" real arguments, "c" complex arguments, "rc" undetermined (integer argument in a complex kernel)
@@ -83,7 +83,7 @@ PyNames(f) ==
     [] f = "tanh" -> {"np.tanh"} [] f = "acosh" -> {"np.arccosh", "np.acosh"}
     [] f = "asinh" -> {"np.arcsinh", "np.asinh"} [] f = "atanh" -> {"np.arctanh", "np.atanh"}
     [] f = "power" -> {"np.power", "np.pow", "pow"} [] f = "exp" -> {"np.exp"} [] f = "ln" -> {"np.log"}
-    [] f = "erf" -> {"math.erf", "scipy.special.erf"} [] f = "atan_2" -> {"np.arctan2", "np.atan2", "math.atan2"}
+    [] f = "erf" -> {"math.erf", "scipy.special.erf"} [] f \in {"atan2", "atan_2"} -> {"np.arctan2", "np.atan2", "math.atan2"}
     [] f = "min_value" -> {"np.minimum", "np.fmin", "min"} [] f = "max_value" -> {"np.maximum", "np.fmax", "max"}
     [] f = "bessel_y" -> {"scipy.special.yn", "scipy.special.yv"}
     [] f = "bessel_j" -> {"scipy.special.jn", "scipy.special.jv"}
